@@ -4,7 +4,7 @@ checks: any VIOLATION / ANALYSIS-ERROR is a false alarm of the machinery."""
 import glob, json, os, shutil, subprocess, sys, tempfile
 from concurrent.futures import ThreadPoolExecutor
 V = os.path.dirname(os.path.dirname(os.path.abspath(__file__)))
-pats = sys.argv[1:] or sorted(glob.glob(os.path.join(V, "refactors", "*", "patch.diff")))
+pats = [os.path.abspath(a) for a in sys.argv[1:]] or sorted(glob.glob(os.path.join(V, "refactors", "*", "patch.diff")))
 
 
 def one(p):
